@@ -221,8 +221,13 @@ def check_hist(case):
                 p.reverse()
                 continue
             if name == "scale2":
-                p *= svg.Matrix.scale(2)
-                p.reify()
+                if (len(hist) + K) % 2 and p.count_subpaths() == 1:
+                    # the same map through the view of the (only) sub-path: it rewrites the segments of the path in place
+                    sp = p.subpath(0)
+                    sp *= svg.Matrix.scale(2)
+                else:
+                    p *= svg.Matrix.scale(2)
+                    p.reify()
                 K *= 2
                 continue
             if name == "query":
